@@ -935,3 +935,72 @@ Proof.
 Qed.
 
 End Square.
+
+(* ====================================================================== *)
+(* Non-vacuity: concrete instances                                         *)
+(* ====================================================================== *)
+
+(* SHA-256 test vectors (FIPS 180-4 / NIST): "abc", "", and the 448-bit message *)
+Example sha256_abc : sha256 [Byte.x61; Byte.x62; Byte.x63] = [Byte.xba; Byte.x78; Byte.x16; Byte.xbf; Byte.x8f; Byte.x01; Byte.xcf; Byte.xea; Byte.x41; Byte.x41; Byte.x40; Byte.xde; Byte.x5d; Byte.xae; Byte.x22; Byte.x23; Byte.xb0; Byte.x03; Byte.x61; Byte.xa3; Byte.x96; Byte.x17; Byte.x7a; Byte.x9c; Byte.xb4; Byte.x10; Byte.xff; Byte.x61; Byte.xf2; Byte.x00; Byte.x15; Byte.xad].
+Proof. vm_compute. reflexivity. Qed.
+Example sha256_empty : sha256 [] = [Byte.xe3; Byte.xb0; Byte.xc4; Byte.x42; Byte.x98; Byte.xfc; Byte.x1c; Byte.x14; Byte.x9a; Byte.xfb; Byte.xf4; Byte.xc8; Byte.x99; Byte.x6f; Byte.xb9; Byte.x24; Byte.x27; Byte.xae; Byte.x41; Byte.xe4; Byte.x64; Byte.x9b; Byte.x93; Byte.x4c; Byte.xa4; Byte.x95; Byte.x99; Byte.x1b; Byte.x78; Byte.x52; Byte.xb8; Byte.x55].
+Proof. vm_compute. reflexivity. Qed.
+Example sha256_448 : sha256 [Byte.x61; Byte.x62; Byte.x63; Byte.x64; Byte.x62; Byte.x63; Byte.x64; Byte.x65; Byte.x63; Byte.x64; Byte.x65; Byte.x66; Byte.x64; Byte.x65; Byte.x66; Byte.x67; Byte.x65; Byte.x66; Byte.x67; Byte.x68; Byte.x66; Byte.x67; Byte.x68; Byte.x69; Byte.x67; Byte.x68; Byte.x69; Byte.x6a; Byte.x68; Byte.x69; Byte.x6a; Byte.x6b; Byte.x69; Byte.x6a; Byte.x6b; Byte.x6c; Byte.x6a; Byte.x6b; Byte.x6c; Byte.x6d; Byte.x6b; Byte.x6c; Byte.x6d; Byte.x6e; Byte.x6c; Byte.x6d; Byte.x6e; Byte.x6f; Byte.x6d; Byte.x6e; Byte.x6f; Byte.x70; Byte.x6e; Byte.x6f; Byte.x70; Byte.x71] = [Byte.x24; Byte.x8d; Byte.x6a; Byte.x61; Byte.xd2; Byte.x06; Byte.x38; Byte.xb8; Byte.xe5; Byte.xc0; Byte.x26; Byte.x93; Byte.x0c; Byte.x3e; Byte.x60; Byte.x39; Byte.xa3; Byte.x3c; Byte.xe4; Byte.x59; Byte.x64; Byte.xff; Byte.x21; Byte.x67; Byte.xf6; Byte.xec; Byte.xed; Byte.xd4; Byte.x19; Byte.xdb; Byte.x06; Byte.xc1].
+Proof. vm_compute. reflexivity. Qed.
+
+(* RFC 6962 reference vectors for the Merkle root over 3 and 8 leaves *)
+Definition rfc_leaves : list bytes := [[]; [Byte.x00]; [Byte.x10]; [Byte.x20; Byte.x21]; [Byte.x30; Byte.x31]; [Byte.x40; Byte.x41; Byte.x42; Byte.x43]; [Byte.x50; Byte.x51; Byte.x52; Byte.x53; Byte.x54; Byte.x55; Byte.x56; Byte.x57]; [Byte.x60; Byte.x61; Byte.x62; Byte.x63; Byte.x64; Byte.x65; Byte.x66; Byte.x67; Byte.x68; Byte.x69; Byte.x6a; Byte.x6b; Byte.x6c; Byte.x6d; Byte.x6e; Byte.x6f]].
+Example merkle_root_rfc3 : merkle_root sha256 (firstn 3 rfc_leaves) = [Byte.xae; Byte.xb6; Byte.xbc; Byte.xfe; Byte.x27; Byte.x4b; Byte.x70; Byte.xa1; Byte.x4f; Byte.xb0; Byte.x67; Byte.xa5; Byte.xe5; Byte.x57; Byte.x82; Byte.x64; Byte.xdb; Byte.x0f; Byte.xa9; Byte.xb5; Byte.x1a; Byte.xf5; Byte.xe0; Byte.xba; Byte.x15; Byte.x91; Byte.x58; Byte.xf3; Byte.x29; Byte.xe0; Byte.x6e; Byte.x77].
+Proof. vm_compute. reflexivity. Qed.
+Example merkle_root_rfc8 : merkle_root sha256 rfc_leaves = [Byte.x5d; Byte.xc9; Byte.xda; Byte.x79; Byte.xa7; Byte.x06; Byte.x59; Byte.xa9; Byte.xad; Byte.x55; Byte.x9c; Byte.xb7; Byte.x01; Byte.xde; Byte.xd9; Byte.xa2; Byte.xab; Byte.x9d; Byte.x82; Byte.x3a; Byte.xad; Byte.x2f; Byte.x49; Byte.x60; Byte.xcf; Byte.xe3; Byte.x70; Byte.xef; Byte.xf4; Byte.x60; Byte.x43; Byte.x28].
+Proof. vm_compute. reflexivity. Qed.
+
+(* (a) 11 shares, threshold 3: width 4, chunks 4,4,2,1; placed at index 8 of an 8x8 square *)
+Example chunks_11_3 : offsets 0 (mmr_sizes 11 (subtree_width 11 3)) = [(0, 4); (4, 4); (8, 2); (10, 1)].
+Proof. vm_compute. reflexivity. Qed.
+Example chunks_in_row_instance :
+  1 <= 3 /\ 8 mod subtree_width 11 3 = 0 /\ pow2 8 /\ subtree_width 11 3 <= 8 /\
+  In (8, 2) (offsets 0 (mmr_sizes 11 (subtree_width 11 3))) /\ (8 + 8) / 8 = (8 + 8 + 2 - 1) / 8.
+Proof. repeat split; try (vm_compute; congruence). - exists 3. reflexivity. - vm_compute. tauto. Qed.
+
+(* (b) a toy tree whose combine is not associative: the node over leaves 2,3 of 4 *)
+Definition toy_f (a b : list nat) : list nat := 0%nat :: a ++ 1%nat :: b.
+Example inner_node_toy :
+  inner_node toy_f [] [[10]; [11]; [12]; [13]]%nat 2 2 = Some (toy_f [12] [13])%nat /\
+  inner_node toy_f [] [[10]; [11]; [12]; [13]]%nat 1 2 = None /\
+  mroot toy_f [] [[10]; [11]; [12]; [13]]%nat = mroot toy_f [] (level_nodes toy_f [] [[10]; [11]; [12]; [13]]%nat 2).
+Proof. vm_compute. repeat split; reflexivity. Qed.
+
+(* (c) a real blob with the real SHA-256: 1000 bytes (3 shares), threshold 1: width 2,
+   chunks 2,1.  A 4x4 square: row 0 is four transaction-namespace shares, the blob sits at
+   index 4 (row 1: blob, blob, blob, tail padding), rows 2,3 are tail padding. *)
+Definition ex_ns : bytes := repeat Byte.x00 27 ++ [Byte.x01; Byte.x07].
+Definition ex_blob : blob := mk_blob ex_ns (repeat Byte.x61 1000) 0 None.
+Definition ex_square : list share :=
+  repeat (tx_ns ++ zeros 483) 4 ++ blob_spec ex_blob ++ repeat (padding_spec tail_padding_ns 0) 9.
+
+Example ex_blob_ok : blob_ok ex_blob.
+Proof.
+  unfold blob_ok. repeat split; try reflexivity.
+  - discriminate.
+  - left. split; reflexivity.
+Qed.
+
+Example ex_square_hyps :
+  length ex_square = (2 ^ 2 * 2 ^ 2)%nat /\
+  4 mod subtree_width (lenN (blob_spec ex_blob)) 1 = 0 /\
+  subtree_width (lenN (blob_spec ex_blob)) 1 <= N.of_nat (2 ^ 2) /\
+  takeN (lenN (blob_spec ex_blob)) (dropN 4 ex_square) = blob_spec ex_blob /\
+  offsets 0 (mmr_sizes (lenN (blob_spec ex_blob)) (subtree_width (lenN (blob_spec ex_blob)) 1)) = [(0, 2); (2, 1)].
+Proof. vm_compute. repeat split; try reflexivity; congruence. Qed.
+
+Example ex_square_nodes :
+  exists r0 r1, subtree_roots sha256 ex_blob 1 = Ok [r0; r1] /\
+  let row1 := row_leaves (takeN 4 (dropN 4 ex_square)) in
+  inner_node (hash_node_o sha256) (Ok (nmt_empty_root sha256)) (nmt_leaf_hashes sha256 row1) 0 2 = Some (Ok r0) /\
+  inner_node (hash_node_o sha256) (Ok (nmt_empty_root sha256)) (nmt_leaf_hashes sha256 row1) 2 1 = Some (Ok r1) /\
+  commitment_sha ex_blob 1 = Ok (merkle_root sha256 [r0; r1]) /\
+  is_ok (nmt_root sha256 row1) = true.
+Proof.
+  eexists. eexists. split; [vm_compute; reflexivity|]. vm_compute. repeat split; reflexivity.
+Qed.
